@@ -75,7 +75,28 @@ type c17State struct {
 func c17NewState() *c17State {
 	st := &c17State{memo: map[string]string{}, memoN: map[string]int{}}
 	st.probeRes, st.present = c17RunProbes(&st.probeEvals)
+	c17PresentNow = st.present
 	return st
+}
+
+// c17PresentNow: the defects whose probes fail on the tree under test (per worker process).
+var c17PresentNow map[string]bool
+
+// c17FamilyDefects maps the family of a shrunk failing program to the defects that
+// produce that shape.
+var c17FamilyDefects = map[string][]string{
+	"defun-inside-toplevel-let":                {"D7"},
+	"name-defined-twice-in-one-file":           {"D8"},
+	"name-defined-in-two-files-of-one-package": {"D8", "D9"},
+	"same-name-in-two-packages":                {"D9", "D8"},
+	"export+use-package+builtin-name":          {"D12"},
+	"export+use-package-across-files":          {"D10", "D11"},
+	"export+use-package-in-one-file":           {"D2"},
+	"export+use-package-any-layout":            {"D2"},
+	"qualified-name-inside-bracket-list":       {"D3"},
+	"macrolet-template":                        {"D6"},
+	"defmacro-template":                        {"D5"},
+	"quasiquote-data":                          {"D4"},
 }
 
 type c17CaseMin struct {
@@ -538,6 +559,15 @@ func c17Key(min *c17Case, f *c17Finding, evals *int) string {
 	}
 	var key string
 	if fam := sig.family(); fam != "" {
+		// The shrunk program has the shape of a defect whose probes fail on this tree
+		// (its trigger is kept out of the random workload, but the exclusion is a
+		// generator-side approximation): report it as that known defect reached through
+		// the random workload, under one fixed key per (defect, family).
+		for _, d := range c17FamilyDefects[fam] {
+			if c17PresentNow[d] {
+				return "known-defect-leak:" + d + ":" + fam
+			}
+		}
 		if fam == "export+use-package-in-one-file" {
 			// does the failure need exporter and importer in ONE file?
 			if alt := c17SplitAtImporter(min); alt != nil {
